@@ -1241,6 +1241,8 @@ func ruleNUMORDER(c *Ctx) []Obligation {
 			return pi != 0 && pt != 0 && pi < pt
 		}
 		switch {
+		case strings.Contains(sig, "exit?") && strings.Index(sig, "exit?") < strings.LastIndex(sig, "act("):
+			o2.Verdict, o2.Detail = VIOL, "the numbering routine can return successfully ahead of (part of) its walk under a condition that is not about the value being numbered (walk: "+sig+"): for such functions the values behind the exit — the parameters of a declaration, say — keep ID 0 and are printed under one number"
 		case strings.Join(a, ",") != "Params,Blocks":
 			o2.Verdict, o2.Detail = VIOL, fmt.Sprintf("locals are numbered in the order %v; LLVM numbers parameters first, then blocks in layout order", a)
 		case !numInstBeforeTerm() || !instBeforeTerm(blockLL):
